@@ -315,6 +315,41 @@ def run_resume(ctx, idx0):
                 split_check(ctx, 'steepest_descent(constant-step)', kind,
                             lambda x, k: S.steepest_descent(data, x, line_search=gam, maxiter=k, tol=0) if k else None, x0, niter, n1,
                             callback_run=lambda x, k, cb: S.steepest_descent(data, x, line_search=gam, maxiter=k, tol=0, callback=cb))
+                # the `projection` keyword (applied in place after every update): projected gradient / Landweber / Kaczmarz against
+                # the textbook loops
+                def proj(z):
+                    z.ufuncs.maximum(-0.2, out=z)
+                    z.ufuncs.minimum(0.4, out=z)
+
+                def pg_ref(x, k):
+                    its = []
+                    for _ in range(k):
+                        x = x - gam * data.gradient(x)
+                        proj(x)
+                        its.append(trace.flat(x).copy())
+                    return its
+
+                def plw_ref(x, k):
+                    its = []
+                    for _ in range(k):
+                        x = x + om * A.adjoint(b - A(x))
+                        proj(x)
+                        its.append(trace.flat(x).copy())
+                    return its
+                for sname_, solver, ref in (
+                        ('steepest_descent(constant-step)', lambda x, k, cb=None: S.steepest_descent(data, x, line_search=gam, maxiter=k, tol=0, projection=proj, callback=cb) if k else None, pg_ref),
+                        ('landweber', lambda x, k, cb=None: S.landweber(A, x, b, k, omega=om, projection=proj, callback=cb), plw_ref)):
+                    split_check(ctx, sname_, kind + ';projection', lambda x, k, solver=solver: solver(x, k), x0, niter, n1)
+                    ctx.ev('reference-equality')
+                    try:
+                        r = trace.Recorder()
+                        xa = x0.copy()
+                        solver(xa, niter, r)
+                        mm = trace.first_mismatch(r.iterates, ref(x0.copy(), niter))
+                        if mm:
+                            ctx.violation(sname_, kind + ';projection', 'iterate-mismatch', first_k=mm[0], rel=mm[1], niter=niter)
+                    except Exception as e:
+                        ctx.violation(sname_, kind + ';projection', 'raises:' + type(e).__name__, message=str(e)[:200])
                 # MLEM needs positivity
                 if kind == 'matrix':
                     Ap = odl.MatrixOperator(np.abs(A.matrix), domain=X, range=Y)
